@@ -237,6 +237,16 @@ def name_arg(n):
     return tuple(n) if isinstance(n, list) else n
 
 
+def _peek(mm):
+    """A half-built map is read (a layout printed between two add() calls, an early elaboration): every query a
+    decoder or a user makes; what the finished hierarchy says and does must not depend on having been asked."""
+    try:
+        list(mm.windows()); list(mm.window_patterns()); list(mm.all_resources())
+        mm.decode_address(0); mm.decode_address((1 << mm.addr_width) - 1)
+    except Exception:
+        pass
+
+
 def build_csr(h, node):
     """Returns the csr.Interface of the node (its .memory_map identifies it in the trace)."""
     from amaranth import Module
@@ -343,6 +353,7 @@ def build_csr(h, node):
                 d.add(sb, name=name_arg(s["name"]), addr=s["addr"])
             except ValueError:
                 pass
+            _peek(d.bus.memory_map)
         h.mods.append(d)
         h.kind[id(d.bus.memory_map)] = ("dec",)
         return d.bus
@@ -382,6 +393,7 @@ def build(spec):
             dec.add(sub, name=name_arg(s["name"]), addr=s["addr"], sparse=bool(s["sparse"]))
         except ValueError:
             continue
+        _peek(dec.bus.memory_map)
         h.mods.append(comp)
         h.kind[id(sub.memory_map)] = info
         if info[0] == "sram":
